@@ -47,6 +47,7 @@ class Accessible(HasProperties):
     """
 
     ownProperties = None
+    mergedProperties = None  # the inherited properties merged into this accessible by its class
     optional = False
 
     def init(self, kwds):
@@ -68,7 +69,7 @@ class Accessible(HasProperties):
 
     def copy(self):
         """return a (deep) copy of ourselfs"""
-        return self.clone(self.propertyValues)
+        return self.clone(self.propertyValues, optional=self.optional)
 
     def updateProperties(self, merged_properties):
         """update merged_properties with our own properties"""
